@@ -458,11 +458,16 @@ def r6_weights_in_one_unit(ctx: Context) -> None:
             if not isinstance(comp, (ast.GeneratorExp, ast.ListComp)) or not any(c is x for g_ in comp.generators for x in ast.walk(g_.iter)):
                 continue
             w = next((k.value for k in c.keywords if k.arg == "weights"), c.args[0] if c.args else None)
-            if not isinstance(w, ast.Lambda):
+            wbodies = []
+            if isinstance(w, ast.Lambda):
+                wbodies = [w.body]
+            elif isinstance(w, ast.Attribute) and isinstance(w.value, ast.Name) and enclosing_class(c) is not None and w.attr in methods(enclosing_class(c)):
+                wbodies = [methods(enclosing_class(c))[w.attr]]
+            if not wbodies:
                 continue
             sel = lambda e: sorted({call_name(x) for x in ast.walk(e) if isinstance(x, ast.Call) and (call_name(x) or "").startswith("get_") and "strategy" in (call_name(x) or "")}
                                    | {x.attr for x in ast.walk(e) if isinstance(x, ast.Attribute) and x.attr in ("slowest_execution_strategy", "fastest_execution_strategy")})  # noqa: E731
-            s_sum, s_w = sel(comp.elt), sel(w.body)
+            s_sum, s_w = sel(comp.elt), sorted({x for b in wbodies for x in sel(b)})
             if not s_sum or not s_w:
                 continue
             n2 += 1
